@@ -571,6 +571,11 @@ class GenericPlainRegistry(Generic[QuantityT, UnitT], metaclass=RegistryMeta):
                 memo = cache.conversion_factor
                 for pair in [p for p in memo if mentions(p[0]) or mentions(p[1])]:
                     del memo[pair]
+                # base units memoised by the system facet, same keys
+                memo = getattr(self, "_base_units_cache", None)
+                if memo:
+                    for units in [units for units in memo if mentions(units)]:
+                        del memo[units]
 
     def _add_defaults(self, defaults_definition: DefaultsDefinition) -> None:
         for k, v in defaults_definition.items():
